@@ -24,69 +24,104 @@ MAINSEEDS = [1, 2, 3, 4, 5, 6, 7, 8]
 
 # per property: which oracles the validator evaluates, executor options,
 # and the TLC configurations of the two tiers
+SMALL = [2, 4, 5, 6]          # two tets, tet+dangling parts, pillow, duplicate edges
+FANS = [3, 7, 8]               # closed / open fans around an edge, different attachment orders
+GC = ['collect_garbage']
+MODE = ['enable_deferred', 'enable_fast']
+SETS = ['set_edge_v', 'set_face_rot', 'set_cell_perm']
+
+def mc(Depth, SeedIds, HistOps, TargetOps, **kw):
+    d = dict(Depth=Depth, SeedIds=SeedIds, HistOps=HistOps, TargetOps=TargetOps)
+    d.update(kw)
+    return d
+
+# per property: which oracles the validator evaluates, executor options,
+# and the TLC configurations of the two tiers
 CHECKS = {
     'C01': dict(
-        props=['C01'], opts='props=0',
-        quick=[dict(Depth=2, SeedIds=MAINSEEDS, HistOps=DEL + ['collect_garbage'],
-                    TargetOps=DEL + ['collect_garbage', 'add_cell_closed', 'add_face_v', 'add_edge'] + BUT + SWAP)],
-        thorough=[dict(Depth=3, SeedIds=MAINSEEDS, HistOps=DEL + ['collect_garbage'],
-                       TargetOps=DEL + ['collect_garbage', 'add_cell_closed', 'add_face_v', 'add_edge'] + BUT + SWAP)],
-        sim=dict(ops=DEL + ['collect_garbage'] + ADDS + BUT + SWAP + ['enable_deferred', 'enable_fast']),
+        props=['C01'], opts='props=0 q=1',
+        quick=[mc(2, SMALL, DEL, DEL + GC + BUT + ['add_edge', 'add_cell_closed'], Modes='ModesTwo'),
+               mc(1, MAINSEEDS, [], SWAP + ['add_face_v'] + SETS, Modes='ModesDefault'),
+               mc(2, [5, 6], DEL, SWAP + SETS, Modes='ModesDeferred', BUSets='BUOn')],
+        thorough=[mc(3, MAINSEEDS, DEL + GC, DEL + GC + BUT + ['add_edge', 'add_face_v', 'add_cell_closed']),
+                  mc(2, MAINSEEDS, DEL, SWAP + SETS)],
+        sim=dict(ops=DEL + GC + ADDS + BUT + SWAP + MODE + SETS),
     ),
     'C02': dict(
         props=['C02'], opts='props=1',
-        quick=[dict(Depth=2, SeedIds=MAINSEEDS, HistOps=DEL + ['collect_garbage', 'enable_deferred', 'enable_fast'],
-                    TargetOps=DEL)],
-        thorough=[dict(Depth=3, SeedIds=MAINSEEDS, HistOps=DEL + ['collect_garbage', 'add_cell_closed', 'add_face_v'],
-                       TargetOps=DEL)],
-        sim=dict(ops=DEL + ['collect_garbage'] + ADDS + BUT + ['enable_deferred', 'enable_fast', 'clear']),
+        quick=[mc(2, MAINSEEDS, DEL + GC + MODE, DEL)],
+        thorough=[mc(3, MAINSEEDS, DEL + GC + ['add_cell_closed', 'add_face_v'], DEL)],
+        sim=dict(ops=DEL + GC + ADDS + BUT + MODE + ['clear']),
     ),
     'C03': dict(
         props=['C03'], opts='props=2',
-        quick=[dict(Depth=2, SeedIds=MAINSEEDS, HistOps=DEL + ['collect_garbage'],
-                    TargetOps=DEL + SWAP + ['collect_garbage', 'add_vertex', 'add_edge', 'add_face_v', 'clear', 'enable_deferred'])],
-        thorough=[dict(Depth=3, SeedIds=MAINSEEDS, HistOps=DEL + ['collect_garbage'],
-                       TargetOps=DEL + SWAP + ['collect_garbage', 'add_vertex', 'add_edge', 'add_face_v', 'clear', 'enable_deferred'])],
-        sim=dict(ops=DEL + ['collect_garbage'] + ADDS + SWAP + ['enable_deferred', 'enable_fast', 'clear']),
+        quick=[mc(2, SMALL, DEL, DEL + GC + ['add_vertex', 'add_edge', 'add_face_v', 'clear', 'enable_deferred'], BUSets='BUTwo'),
+               mc(1, MAINSEEDS, [], SWAP, Modes='ModesDefault', BUSets='BUTwo'),
+               mc(2, [5, 6], DEL, SWAP, Modes='ModesDeferred', BUSets='BUTwo')],
+        thorough=[mc(3, MAINSEEDS, DEL + GC, DEL + GC + ['add_vertex', 'add_edge', 'add_face_v', 'clear', 'enable_deferred'], BUSets='BUTwo'),
+                  mc(2, MAINSEEDS, DEL, SWAP, BUSets='BUTwo')],
+        sim=dict(ops=DEL + GC + ADDS + SWAP + MODE + ['clear']),
     ),
     'C04': dict(
         props=['C04', 'C03'], opts='props=1',
-        quick=[dict(Depth=3, SeedIds=MAINSEEDS, Modes='ModesDeferred', HistOps=DEL,
-                    TargetOps=['collect_garbage', 'enable_deferred'])],
-        thorough=[dict(Depth=4, SeedIds=MAINSEEDS, Modes='ModesDeferred', HistOps=DEL,
-                       TargetOps=['collect_garbage', 'enable_deferred'])],
-        sim=dict(ops=DEL + DEL + ['collect_garbage'] + ADDS + ['enable_deferred', 'enable_fast']),
+        quick=[mc(3, SMALL + [3], DEL, GC + ['enable_deferred'], Modes='ModesDeferred')],
+        thorough=[mc(4, MAINSEEDS, DEL, GC + ['enable_deferred'], Modes='ModesDeferred')],
+        sim=dict(ops=DEL + DEL + GC + ADDS + MODE),
+    ),
+    'C05': dict(
+        props=['C05'], opts='props=0 q=3',
+        quick=[mc(2, [2, 4, 5, 6, 3], DEL, DEL + GC, Modes='ModesTwo', BUSets='BUTwo'),
+               mc(1, MAINSEEDS, [], DEL + BUT, Modes='ModesDefault')],
+        thorough=[mc(3, MAINSEEDS, DEL, DEL + GC + ['add_cell_closed'], Modes='ModesTwo'),
+                  mc(2, MAINSEEDS, DEL, BUT, Modes='ModesDefault')],
+        sim=dict(ops=DEL + GC + ADDS + BUT + MODE, num=(12, 100), depth=(20, 40)),
+    ),
+    'C08': dict(
+        props=['C08'], opts='props=0 q=4',
+        quick=[mc(2, [2, 4, 5, 6], DEL, DEL + GC + ['add_face_v', 'add_edge'], Modes='ModesTwo', BUSets='BUTwo'),
+               mc(1, MAINSEEDS, [], SWAP, Modes='ModesDefault', BUSets='BUOn')],
+        thorough=[mc(3, MAINSEEDS, DEL, DEL + GC + ['add_face_v', 'add_edge'], Modes='ModesTwo', BUSets='BUTwo'),
+                  mc(2, MAINSEEDS, DEL, SWAP, Modes='ModesTwo', BUSets='BUOn')],
+        sim=dict(ops=DEL + GC + ADDS + SWAP + MODE, num=(12, 100), depth=(20, 40)),
     ),
     'C09': dict(
-        props=['C09'], opts='props=0',
-        quick=[dict(Depth=2, SeedIds=[2, 3, 5, 7, 8], BUSets='BUOn', HistOps=DEL + ['collect_garbage', 'add_cell_closed'],
-                    TargetOps=DEL + ['collect_garbage', 'add_cell_closed'] + BUT + SWAP)],
-        thorough=[dict(Depth=3, SeedIds=[2, 3, 5, 7, 8], BUSets='BUOn', HistOps=DEL + ['collect_garbage', 'add_cell_closed'],
-                       TargetOps=DEL + ['collect_garbage', 'add_cell_closed'] + BUT + SWAP)],
-        sim=dict(ops=DEL + ['collect_garbage'] + ADDS + BUT + SWAP + ['enable_deferred', 'enable_fast'], BUSets='BUOn'),
+        props=['C09'], opts='props=0 q=8',
+        quick=[mc(2, [2, 3, 5, 7, 8], DEL + ['add_cell_closed'], DEL + GC + ['add_cell_closed'] + BUT, BUSets='BUOn'),
+               mc(1, [2, 3, 5, 7, 8], [], SWAP, Modes='ModesDefault', BUSets='BUOn'),
+               mc(3, [3, 7, 8], ['delete_cell', 'add_cell_closed'], ['delete_cell', 'delete_face', 'add_cell_closed'], Modes='ModesTwo', BUSets='BUOn')],
+        thorough=[mc(3, [2, 3, 5, 7, 8], DEL + GC + ['add_cell_closed'], DEL + GC + ['add_cell_closed'] + BUT + SWAP, BUSets='BUOn')],
+        sim=dict(ops=DEL + GC + ADDS + BUT + SWAP + MODE, BUSets='BUOn'),
+    ),
+    'C10': dict(
+        props=['C10'], opts='props=0 q=16',
+        quick=[mc(2, [2, 4, 5, 6, 3], DEL, DEL + GC, Modes='ModesTwo', BUSets='BUOn'),
+               mc(1, MAINSEEDS, [], ['add_face_v', 'add_edge'] + SWAP, Modes='ModesDefault', BUSets='BUOn')],
+        thorough=[mc(3, MAINSEEDS, DEL, DEL + GC + ['add_face_v', 'add_edge', 'add_cell_closed'], Modes='ModesTwo', BUSets='BUOn')],
+        sim=dict(ops=DEL + GC + ADDS + SWAP + MODE, BUSets='BUOn', num=(12, 100), depth=(20, 40)),
     ),
     'C11': dict(
-        props=['C11'], opts='props=0',
-        quick=[dict(Depth=1, SeedIds=[1, 4, 6], HistOps=[], TargetOps=['add_edge', 'add_face'], MaxList=3),
-               dict(Depth=1, SeedIds=[1, 5], Modes='ModesDefault', HistOps=[], TargetOps=['add_cell'], MaxList=4),
-               dict(Depth=2, SeedIds=[1, 2, 6], HistOps=DEL, TargetOps=['add_edge', 'add_cell_closed'], MaxList=3)],
-        thorough=[dict(Depth=2, SeedIds=[1, 4, 6], HistOps=DEL, TargetOps=['add_edge', 'add_face'], MaxList=3),
-                  dict(Depth=2, SeedIds=[1, 2, 5], Modes='ModesDefault', HistOps=['delete_cell'], TargetOps=['add_cell'], MaxList=4)],
+        props=['C11', 'C08'], opts='props=0',
+        quick=[mc(1, [1, 4, 6], [], ['add_edge', 'add_face'], MaxList=3),
+               mc(1, [1, 5], [], ['add_cell'], Modes='ModesDefault', MaxList=4),
+               mc(2, [1, 2, 6], DEL, ['add_edge', 'add_cell_closed', 'add_face_v'], MaxList=3)],
+        thorough=[mc(2, [1, 4, 6], DEL, ['add_edge', 'add_face'], MaxList=3),
+                  mc(2, [1, 2, 5], ['delete_cell'], ['add_cell'], Modes='ModesDefault', MaxList=4)],
         sim=None,
     ),
     'C12': dict(
-        props=['C12', 'C01', 'C09'], opts='props=1 twin=1', variant='san',
-        quick=[dict(Depth=2, SeedIds=MAINSEEDS, HistOps=DEL + ['collect_garbage'] + BUT,
-                    TargetOps=DEL + SWAP + BUT + ['collect_garbage', 'add_edge', 'add_face_v', 'add_cell_closed', 'enable_deferred'])],
-        thorough=[dict(Depth=3, SeedIds=MAINSEEDS, HistOps=DEL + ['collect_garbage'] + BUT,
-                       TargetOps=DEL + SWAP + BUT + ['collect_garbage', 'add_edge', 'add_face_v', 'add_cell_closed', 'enable_deferred'])],
-        sim=dict(ops=DEL + ['collect_garbage'] + ADDS + BUT + BUT + SWAP + ['enable_deferred', 'enable_fast']),
+        props=['C12', 'C01', 'C09'], opts='props=1 twin=1 q=1', variant='san',
+        quick=[mc(2, SMALL, DEL + BUT, DEL + GC + BUT + ['add_edge', 'add_face_v', 'add_cell_closed', 'enable_deferred'], Modes='ModesTwo'),
+               mc(1, MAINSEEDS, [], SWAP, Modes='ModesDefault')],
+        thorough=[mc(3, MAINSEEDS, DEL + GC + BUT, DEL + SWAP + BUT + GC + ['add_edge', 'add_face_v', 'add_cell_closed', 'enable_deferred'])],
+        sim=dict(ops=DEL + GC + ADDS + BUT + BUT + SWAP + MODE),
     ),
     'C17': dict(
         props=['C17', 'C03', 'C01'], opts='props=2',
-        quick=[dict(Depth=2, SeedIds=MAINSEEDS, HistOps=DEL, TargetOps=SWAP)],
-        thorough=[dict(Depth=3, SeedIds=MAINSEEDS, HistOps=DEL + ['add_cell_closed'], TargetOps=SWAP)],
-        sim=dict(ops=SWAP + SWAP + DEL + ['collect_garbage'] + ADDS),
+        quick=[mc(1, MAINSEEDS, [], SWAP, Modes='ModesDefault'),
+               mc(2, [5, 6, 1], DEL, SWAP, Modes='ModesDeferred', BUSets='BUTwo')],
+        thorough=[mc(2, MAINSEEDS, DEL, SWAP, Modes='ModesTwo'),
+                  mc(3, [5, 6], DEL + ['add_cell_closed'], SWAP, Modes='ModesDeferred')],
+        sim=dict(ops=SWAP + SWAP + DEL + GC + ADDS),
         swap_twice=True,
     ),
 }
@@ -173,7 +208,9 @@ def run_check(prop, tier, seed, replay=None):
             cov['drift_lines'] += agg['drift']
         sim = cfg.get('sim')
         if sim:
-            num, depth = (40, 30) if tier == 'quick' else (400, 60)
+            ti = 0 if tier == 'quick' else 1
+            num = sim.get('num', (40, 400))[ti]
+            depth = sim.get('depth', (30, 60))[ti]
             c = dict(Depth=depth + 1, SeedIds=ALLSEEDS, HistOps=sorted(set(sim['ops'])), TargetOps=[], Emit='sim',
                      Modes='ModesAll', BUSets=sim.get('BUSets', 'BUAll'))
             cp = os.path.join(work, 'sim.cfg')
